@@ -3,6 +3,8 @@ from __future__ import annotations
 
 import itertools
 
+import numpy as np
+
 from .. import fakectx, par_common as P, state
 from ..common import hx, key_family, pick, run_cases, sk
 
@@ -60,6 +62,31 @@ def run_inproc_case(case, ctx, mon):
     mon.seen("item_kind", case.get("item_kind", "dict"))
     del sketches, res
     mon.nontrivial(n_marked > 0)
+
+
+def run_inproc_big(case, ctx, mon):
+    """Tens of thousands of items with a few raising ones (size-gated delivery paths such as batching start somewhere): every
+    other item's contribution and record count must arrive.  The item list is rebuilt from the compact case description."""
+    n, nw = case["n"], case["n_workers"]
+    rng = np.random.default_rng(case["seed"])
+    keys = key_family(rng, 8, 0, 8)
+    items = [{"i": i, "keys": [[hx(keys[i % 8]), 1 + (i % 3)]], "records": 1 + (i % 2), "mark": None, "sleep_ms": 0, "ret": "int"} for i in range(n)]
+    for i, m in case["raising"].items():
+        items[int(i)]["mark"] = m
+    sched = {w: list(range(w, n, nw)) for w in range(nw)}
+    combo = tuple(case["combo"])
+    det = dict(n_workers=nw, n_items=n, raising=case["raising"])
+    outcome, res, fctx = P.run_inproc(items, sched, nw, case["args"])
+    if outcome == "hang":
+        mon.check(False, "parallel_add-terminates", why=str(res), **det)
+    mon.check(outcome == "returned", "raising-callback=>parallel_add-still-returns", outcome=outcome,
+              exc=(f"{type(res).__name__}: {res}" if outcome == "raised" else None), child_errors=fctx.child_errors[:3], **det)
+    meta, sketches = P.extract(res, combo)
+    P.check_result(mon, sketches, combo, case["args"], items, det)
+    mon.count("inproc_big_runs")
+    mon.count("inproc_big_items", n)
+    del sketches, res
+    mon.nontrivial(True)
 
 
 def run_spawned_case(case, ctx, mon):
@@ -129,7 +156,7 @@ def gen_cases(ctx):
     rng = ctx.rng("cases")
     q = ctx.quick
     sh, ns = ctx.shard, ctx.nshards
-    plan = [(2, 1, None), (2, 3, "sigkill")] if q else [(1, 0, None), (2, 1, None), (3, 2, None), (2, 4, "sigkill"), (3, 0, "sigkill"), (1, 2, None), (2, 0, "sigkill"), (1, 1, "sigkill"),
+    plan = [(2, 1, None), (2, 3, "sigkill"), (2, 2, "sigterm")] if q else [(3, 1, "sigterm"), (1, 0, "sigterm"), (1, 0, None), (2, 1, None), (3, 2, None), (2, 4, "sigkill"), (3, 0, "sigkill"), (1, 2, None), (2, 0, "sigkill"), (1, 1, "sigkill"),
                                      (2, 1, "KeyboardInterrupt"), (2, 2, "SystemExit(2)")]
     for j, (nw, kth, how) in enumerate(plan):
         if q or j % ns == sh:
@@ -150,6 +177,10 @@ def gen_cases(ctx):
         items = P.gen_items(rng, n, keys, marks={i: pick(rng, ["raise_before", "raise_after", "raise_custom"]) for i in range(n) if i not in good})
         yield {"type": "spawned_raise", "items": items, "n_workers": 2, "combo": list(COMBO_ALL), "args": P.gen_args(rng, COMBO_ALL, "linear"),
                "timeout": 900, "item_kind": "dict", "many_raising": n - 40}
+    if q or sh == ns - 4:
+        n = 60000 if q else 150000
+        yield {"type": "inproc_big", "n": n, "n_workers": 2, "combo": list(COMBO_ALL), "args": P.gen_args(rng, COMBO_ALL, "linear"), "seed": int(rng.integers(0, 2**31)),
+               "raising": {str(int(x)): pick(rng, ["raise_before", "raise_after", "raise_custom"]) for x in rng.choice(n, 4, replace=False)}}
     # --- core (never cut short by the time budget): all mark vectors x all schedules of 3 items on 2 workers, and sampled runs
     yield from exhaustive(ctx, 3, 2)
     yield from sampled(ctx, rng, 0, 300 if q else max(40, 640 // ns))
@@ -208,6 +239,8 @@ def run_case(case, ctx, mon):
         run_inproc_case(case, ctx, mon)
         if "exhaustive" in case:
             mon.count("exhaustive_fault_x_schedule_cases" if case["exhaustive"] == [3, 2] else "exhaustive_fault_x_schedule_cases_4x3")
+    elif case["type"] == "inproc_big":
+        run_inproc_big(case, ctx, mon)
     elif case["type"] == "spawned_raise":
         run_spawned_raise_case(case, ctx, mon)
     else:
@@ -246,7 +279,8 @@ def floors(mon, ctx):
     mon.floor("exhaustive fault x schedule cases (3 items, 2 workers: 64 mark vectors x 24 schedules)", mon.counters["exhaustive_fault_x_schedule_cases"], 64 * 24)
     mon.floor("in-process runs with marked items", mon.counters["inproc_runs_with_marked_items"], 200)
     mon.floor("in-process simulated deaths", mon.counters["inproc_death_runs"], 20)
-    mon.floor("real death runs completed", mon.counters["spawned_death_runs_completed"], 2)
-    mon.floor("ways a real worker died (os._exit, SIGKILL)", len(mon.classes["spawned_death_how"]), 2)
+    mon.floor("real death runs completed", mon.counters["spawned_death_runs_completed"], 3)
+    mon.floor("ways a real worker died (os._exit, SIGKILL, SIGTERM)", len(mon.classes["spawned_death_how"]), 3)
+    mon.floor("items of the largest in-process run with raising items", mon.counters["inproc_big_items"], 50000)
     mon.floor("raising items in one real spawned run", mon.counters["spawned_raising_items"], 2000)
     mon.floor("fault kinds", len(mon.classes["marks"]), 2)
